@@ -29,6 +29,10 @@ pub trait PacketReceiver: Send + Sync {
 }
 
 pub fn get_local_ip() -> Result<IpAddr, anyhow::Error> {
+    #[cfg(rustrtc_verif)]
+    if let Some(ip) = crate::verif_hooks::local_ip_override() {
+        return Ok(ip);
+    }
     let ttl = local_ip_cache_ttl();
     if ttl.is_zero() {
         return resolve_local_ip_uncached();
